@@ -1,4 +1,4 @@
-//! Rewrite rules R0..R20 (DESIGN.md 2.1). Every rule is a syn visitor that emits text edits; a rule is
+//! Rewrite rules R0..R21 (DESIGN.md 2.1). Every rule is a syn visitor that emits text edits; a rule is
 //! re-run on the re-parsed text until it finds nothing more, so nested occurrences are handled.
 
 use crate::{apply_edits, br, nr, txt, Ctx, Edit};
@@ -18,6 +18,7 @@ pub fn run_all(text: &str, ctx: &Ctx, log: &mut BTreeMap<&'static str, usize>) -
         ("R7", r7),
         ("R3", r3),
         ("R12", r12),
+        ("R21", r21),
         ("R19", r19),
         ("R20", r20),
         ("R11", r11),
@@ -845,8 +846,20 @@ impl<'a> R10<'a> {
                 }
                 None
             }
+            Expr::Call(c) => {
+                // R21's `take_map_(&mut X)` has the type of X
+                if let Expr::Path(f) = &*c.func {
+                    if f.path.is_ident("take_map_") && c.args.len() == 1 {
+                        return self.type_of(&c.args[0]).map(|t| strip_ref(&t));
+                    }
+                }
+                None
+            }
             Expr::MethodCall(m) => {
                 let name = m.method.to_string();
+                if name == "clone" && m.args.is_empty() {
+                    return self.type_of(&m.receiver).map(|t| strip_ref(&t));
+                }
                 if name == "or_default" {
                     if let Expr::MethodCall(en) = &*m.receiver {
                         if en.method == "entry" {
@@ -913,6 +926,25 @@ impl<'a, 'ast> Visit<'ast> for R10<'a> {
     fn visit_block(&mut self, b: &'ast syn::Block) {
         self.env.push(HashMap::new());
         visit::visit_block(self, b);
+        self.env.pop();
+    }
+    fn visit_expr_for_loop(&mut self, fl: &'ast syn::ExprForLoop) {
+        // `for (k, v) in M.iter()` over a map of known type: v is a (reference to a) value of the map
+        let mut vt: Option<(String, String)> = None;
+        if let (Pat::Tuple(t), Expr::MethodCall(it)) = (&*fl.pat, &*fl.expr) {
+            if t.elems.len() == 2 && it.method == "iter" {
+                if let (Pat::Ident(v), Some(mt)) = (&t.elems[1], self.type_of(&it.receiver)) {
+                    if let Some(val) = map_value_type(&mt) {
+                        vt = Some((v.ident.to_string(), val));
+                    }
+                }
+            }
+        }
+        self.env.push(HashMap::new());
+        if let Some((n, t)) = vt {
+            self.env.last_mut().unwrap().insert(n, t);
+        }
+        visit::visit_expr_for_loop(self, fl);
         self.env.pop();
     }
     fn visit_local(&mut self, l: &'ast syn::Local) {
@@ -1569,4 +1601,60 @@ impl<'a, 'ast> Visit<'ast> for R20<'a> {
 }
 fn r20(src: &str, f: &syn::File, _c: &Ctx, e: &mut Vec<Edit>) {
     R20 { src, edits: e }.visit_file(f);
+}
+
+// ---------------------------------------------------------------------------------------------- R21
+// statement `M.values_mut().for_each(|P| BODY);`  ->  the map is rebuilt entry by entry with BODY applied to a copy of each value:
+//   { let old_m_ = take_map_(&mut M); for (k_, v_) in old_m_.iter() { let mut v__ = v_.clone(); { let P = &mut v__; BODY; } M.insert(k_.clone(), v__); } }
+// (keys are unique, so re-inserting every (key, updated value) gives the map that in-place mutation gives; `take_map_` is
+//  `std::mem::replace(m, HashMap::new())`; vstd has no model of `values_mut`). Tested by xcheck like every other rule.
+struct R21<'a> {
+    src: &'a str,
+    edits: &'a mut Vec<Edit>,
+}
+impl<'a> R21<'a> {
+    fn try_call(&mut self, m: &syn::ExprMethodCall, whole: (usize, usize)) -> bool {
+        if m.method == "for_each" && m.args.len() == 1 {
+            if let (Expr::Closure(c), Expr::MethodCall(vm)) = (&m.args[0], &*m.receiver) {
+                if vm.method == "values_mut" && vm.args.is_empty() && c.inputs.len() == 1 && is_simple_ident_pat(&c.inputs[0]) {
+                    let recv = txt(self.src, &*vm.receiver).split_whitespace().collect::<Vec<_>>().join("");
+                    let p = txt(self.src, &c.inputs[0]);
+                    let body = txt(self.src, &*c.body);
+                    self.edits.push(Edit {
+                        start: whole.0,
+                        end: whole.1,
+                        text: format!(
+                            "{{ let old_m_ = take_map_(&mut {recv}); for (k_, v_) in old_m_.iter() {{ let mut v__ = v_.clone(); {{ let mut {p} = &mut v__; {body}; }} {recv}.insert(k_.clone(), v__); }} }}",
+                            recv = recv, p = p, body = body
+                        ),
+                        rule: "R21",
+                    });
+                    return true;
+                }
+            }
+        }
+        false
+    }
+}
+impl<'a, 'ast> Visit<'ast> for R21<'a> {
+    fn visit_stmt(&mut self, st: &'ast Stmt) {
+        if let Stmt::Expr(Expr::MethodCall(m), _) = st {
+            if self.try_call(m, nr(m)) {
+                return;
+            }
+        }
+        visit::visit_stmt(self, st);
+    }
+    fn visit_expr_closure(&mut self, c: &'ast syn::ExprClosure) {
+        // closure whose whole body is such a call (the nested case `|v| v.values_mut().for_each(..)`)
+        if let Expr::MethodCall(m) = &*c.body {
+            if self.try_call(m, nr(m)) {
+                return;
+            }
+        }
+        visit::visit_expr_closure(self, c);
+    }
+}
+fn r21(src: &str, f: &syn::File, _c: &Ctx, e: &mut Vec<Edit>) {
+    R21 { src, edits: e }.visit_file(f);
 }
